@@ -5,10 +5,11 @@ package main
 // A function body is flattened, in source order, to a list of short lines.  The form is chosen so that
 // edits which cannot change what the function does leave it unchanged:
 //
-//   * identifiers declared by the function are replaced: receiver -> recv, parameters -> p1, p2, ...
-//     (by position), named results -> err (type error) / r1, r2, ..., variables declared `error` -> err,
-//     every other local (:=, var, range, parameters of function literals, local types) -> v1, v2, ...
-//     numbered in the order in which they first appear in the EMITTED lines; package-level names,
+//   * identifiers declared by the function are replaced (per declaration, as resolved by the parser's scope
+//     analysis, not per name): receiver -> recv, parameters -> p1, p2, ... (by position), named results ->
+//     err (type error) / r1, r2, ..., variables declared `error` -> err, parameters of a function literal
+//     -> a1, a2, ... (b1 ... one level deeper), every other local (:=, var, range, local types) -> v1,
+//     v2, ... numbered in the order in which they first appear in the EMITTED lines; package-level names,
 //     field names and the universe (nil, len, make, ...) are printed as they are;
 //   * comments never reach the AST; `:=` and `=` are both printed `=`; `var x T` without a value is dropped;
 //   * statements that belong to other properties are dropped: verifhook.Yield(...) (add-only
@@ -16,7 +17,8 @@ package main
 //     named `time` (time stamps are not modelled), local type declarations;
 //   * the message arguments of error constructors are dropped: goaterr.Errorf(...), fmt.Errorf(...),
 //     errors.New(...) are all printed `error`;
-//   * the fields of a keyed composite literal are printed in alphabetical order.
+//   * the fields of a keyed composite literal and the operands of a chain a | b | c are printed in
+//     alphabetical order.
 //
 // Control flow is kept: `if h` ... [`else` ...] `end`, `for h` ... `end`, `range k, v = x` ... `end`,
 // `switch`/`case`/`end`; an `if` without else whose body is one return statement is printed on one line,
@@ -33,11 +35,13 @@ import (
 
 var lockNames = map[string]bool{"Lock": true, "Unlock": true, "RLock": true, "RUnlock": true}
 
+// Identifiers are resolved by the parser's scope analysis (ast.Ident.Obj): two variables of the same name
+// in different scopes are different objects, a renamed variable is the same object.
 type env struct {
-	fixed  map[string]string // receiver, parameters, named results, variables declared `error`
-	locals map[string]bool   // every other name declared inside the function
-	vnum   map[string]string
-	next   int
+	fd    *ast.FuncDecl
+	fixed map[*ast.Object]string // receiver, parameters, named results, variables declared `error`, parameters of literals
+	vnum  map[*ast.Object]string
+	next  int
 }
 
 func isErrorType(t ast.Expr) bool {
@@ -46,11 +50,16 @@ func isErrorType(t ast.Expr) bool {
 }
 
 func newEnv(fd *ast.FuncDecl) *env {
-	e := &env{fixed: map[string]string{}, locals: map[string]bool{}, vnum: map[string]string{}}
+	e := &env{fd: fd, fixed: map[*ast.Object]string{}, vnum: map[*ast.Object]string{}}
+	fix := func(id *ast.Ident, c string) {
+		if id != nil && id.Name != "_" && id.Obj != nil {
+			e.fixed[id.Obj] = c
+		}
+	}
 	if fd.Recv != nil {
 		for _, f := range fd.Recv.List {
 			for _, n := range f.Names {
-				e.fixed[n.Name] = "recv"
+				fix(n, "recv")
 			}
 		}
 	}
@@ -61,9 +70,7 @@ func newEnv(fd *ast.FuncDecl) *env {
 		}
 		for _, n := range f.Names {
 			i++
-			if n.Name != "_" {
-				e.fixed[n.Name] = "p" + strconv.Itoa(i)
-			}
+			fix(n, "p"+strconv.Itoa(i))
 		}
 	}
 	if fd.Type.Results != nil {
@@ -74,13 +81,10 @@ func newEnv(fd *ast.FuncDecl) *env {
 			}
 			for _, n := range f.Names {
 				i++
-				if n.Name == "_" {
-					continue
-				}
 				if isErrorType(f.Type) {
-					e.fixed[n.Name] = "err"
+					fix(n, "err")
 				} else {
-					e.fixed[n.Name] = "r" + strconv.Itoa(i)
+					fix(n, "r"+strconv.Itoa(i))
 				}
 			}
 		}
@@ -88,84 +92,67 @@ func newEnv(fd *ast.FuncDecl) *env {
 	if fd.Body == nil {
 		return e
 	}
-	decl := func(id *ast.Ident) {
-		if id != nil && id.Name != "_" {
-			if _, ok := e.fixed[id.Name]; !ok {
-				e.locals[id.Name] = true
-			}
-		}
-	}
-	ast.Inspect(fd.Body, func(n ast.Node) bool {
+	depth := 0
+	var visit func(n ast.Node) bool
+	visit = func(n ast.Node) bool {
 		switch x := n.(type) {
-		case *ast.AssignStmt:
-			if x.Tok == token.DEFINE {
-				for _, l := range x.Lhs {
-					if id, ok := l.(*ast.Ident); ok {
-						decl(id)
-					}
-				}
-			}
 		case *ast.ValueSpec:
-			for _, id := range x.Names {
-				if x.Type != nil && isErrorType(x.Type) && id.Name != "_" {
-					if _, ok := e.fixed[id.Name]; !ok {
-						e.fixed[id.Name] = "err"
-					}
-				} else {
-					decl(id)
-				}
-			}
-		case *ast.TypeSpec:
-			decl(x.Name)
-		case *ast.RangeStmt:
-			if x.Tok == token.DEFINE {
-				if id, ok := x.Key.(*ast.Ident); ok {
-					decl(id)
-				}
-				if id, ok := x.Value.(*ast.Ident); ok {
-					decl(id)
+			if x.Type != nil && isErrorType(x.Type) {
+				for _, id := range x.Names {
+					fix(id, "err")
 				}
 			}
 		case *ast.FuncLit:
+			// parameters of a function literal: a1 a2 ... by position (b1 ... one level deeper)
+			depth++
+			pre := string(rune('a' + (depth-1)%26))
+			k := 0
 			for _, f := range x.Type.Params.List {
+				if len(f.Names) == 0 {
+					k++
+				}
 				for _, id := range f.Names {
-					decl(id)
+					k++
+					fix(id, pre+strconv.Itoa(k))
 				}
 			}
 			if x.Type.Results != nil {
 				for _, f := range x.Type.Results.List {
 					for _, id := range f.Names {
-						if isErrorType(f.Type) && id.Name != "_" {
-							if _, ok := e.fixed[id.Name]; !ok {
-								e.fixed[id.Name] = "err"
-							}
-						} else {
-							decl(id)
+						if isErrorType(f.Type) {
+							fix(id, "err")
 						}
 					}
 				}
 			}
+			ast.Inspect(x.Body, visit)
+			depth--
+			return false
 		}
 		return true
-	})
-	// a name that is both fixed and local (a parameter shadowed by :=) stays fixed
+	}
+	ast.Inspect(fd.Body, visit)
 	return e
 }
 
-func (e *env) ident(name string) string {
-	if c, ok := e.fixed[name]; ok {
+func (e *env) ident(id *ast.Ident) string {
+	o := id.Obj
+	if o == nil || id.Name == "_" {
+		return id.Name
+	}
+	if c, ok := e.fixed[o]; ok {
 		return c
 	}
-	if e.locals[name] {
-		if c, ok := e.vnum[name]; ok {
+	if (o.Kind == ast.Var || o.Kind == ast.Typ || o.Kind == ast.Con) && o.Pos() >= e.fd.Pos() && o.Pos() < e.fd.End() {
+		if c, ok := e.vnum[o]; ok {
 			return c
 		}
 		e.next++
 		c := "v" + strconv.Itoa(e.next)
-		e.vnum[name] = c
+		e.vnum[o] = c
 		return c
 	}
-	return name
+	return id.Name
 }
 
 type printer struct {
@@ -203,7 +190,7 @@ func (p *printer) expr(x ast.Expr) string {
 	case nil:
 		return ""
 	case *ast.Ident:
-		return p.e.ident(v.Name)
+		return p.e.ident(v)
 	case *ast.BasicLit:
 		return v.Value
 	case *ast.SelectorExpr:
@@ -223,6 +210,22 @@ func (p *printer) expr(x ast.Expr) string {
 		}
 		return s + ")"
 	case *ast.BinaryExpr:
+		if v.Op == token.OR {
+			// a | b | c is printed with its operands in alphabetical order (flag sets)
+			var ops []string
+			var flat func(x ast.Expr)
+			flat = func(x ast.Expr) {
+				if b, ok := x.(*ast.BinaryExpr); ok && b.Op == token.OR {
+					flat(b.X)
+					flat(b.Y)
+				} else {
+					ops = append(ops, p.expr(x))
+				}
+			}
+			flat(v)
+			sort.Strings(ops)
+			return strings.Join(ops, " | ")
+		}
 		return p.expr(v.X) + " " + v.Op.String() + " " + p.expr(v.Y)
 	case *ast.UnaryExpr:
 		return v.Op.String() + p.expr(v.X)
@@ -335,7 +338,7 @@ func (p *printer) simple(s ast.Stmt) string {
 			r := p.exprs(vs.Values)
 			names := make([]string, len(vs.Names))
 			for i, n := range vs.Names {
-				names[i] = p.e.ident(n.Name)
+				names[i] = p.e.ident(n)
 			}
 			parts = append(parts, strings.Join(names, ", ")+" = "+r)
 		}
@@ -415,7 +418,7 @@ func (p *printer) flushLits() {
 		var ps []string
 		for _, f := range pl.lit.Type.Params.List {
 			for _, n := range f.Names {
-				ps = append(ps, p.e.ident(n.Name))
+				ps = append(ps, p.e.ident(n))
 			}
 		}
 		head := "func"
